@@ -7,13 +7,13 @@ CLAIMED = {
 }
 def sched(txt): return txt
 
-T_SCHED = "stateless exhaustive exploration of the real server under a controlled scheduler (all task orders, select! start indices and hooked preemption points within a deviation bound), history oracle"
+T_SCHED = "stateless exhaustive exploration of the real server under a controlled scheduler (all task orders, select! start indices, preemptions and whole-thread stalls at hooked points within a deviation bound), history oracle"
 T_SEQ = "exhaustive enumeration of all operation sequences up to a depth on the real server, compared step by step with a reference model; plus deviation-bounded schedule exploration of litmus programs"
 T_INPUT = "bounded-exhaustive enumeration of inputs on the real code against an independent reference"
 T_FAULT = "exhaustive enumeration of endpoint answer sequences (fault injection at the transport seam) on the real push loop under the controlled scheduler"
 T_LOOM = "loom: exhaustive thread interleavings and C11 atomic behaviours of the real flow_control.rs up to a preemption bound; Notify model bound to tokio by exhaustive conformance sequences"
 
-NOTE_DSCHED = "trusted: tokio 1.40.0 (+ verif_hook patch redirecting spawn and the select! start index), tonic/prost, the harness' reference oracle; interleavings at poll-step + hooked preemption-point granularity with nested preemption only; small worlds (<=3 topics, <=3 subscriptions, <=4 clients; single large-count units beyond that); virtual time moved only at harness-chosen instants"
+NOTE_DSCHED = "trusted: tokio 1.40.0 (+ verif_hook patch redirecting spawn and the select! start index), tonic/prost, the harness' reference oracle; interleavings at poll-step + hooked preemption-point granularity (nested single-poll preemption, or a stall while all other tasks run until idle); small worlds (<=3 topics, <=3 subscriptions, <=4 clients; single large-count units beyond that); virtual time moved only at harness-chosen instants"
 
 import os
 props = [json.loads(l) for l in open('/verif/properties.jsonl')]
